@@ -762,6 +762,14 @@ func (f *frame) backEdge(li *loopInfo, from *ssa.BasicBlock, pc string, h *Heap)
 		// conditions that must hold whenever the loop goes round again (e.g. "a skipped message was not selected")
 		env := f.specEnv(h, nil, nil)
 		f.bindLocalsI(env, from, nil, true, li.blocks)
+		// a loop-carried variable has, when the loop goes round from this block, exactly the value its header phi receives
+		// along this edge (the "latest block wins" resolution above may pick an assignment of a path not taken)
+		for ph, v := range next {
+			if ph.Comment != "" {
+				env.vars[ph.Comment] = TV{v, ph.Type()}
+				delete(env.cells, ph.Comment)
+			}
+		}
 		if os.Getenv("GOVC_DEBUG_ENV") != "" {
 			var ks []string
 			for k := range env.vars {
@@ -995,6 +1003,16 @@ func (f *frame) step(b *ssa.BasicBlock, ins ssa.Instruction, pc string, h *Heap,
 		f.typeAssert(in, pc)
 	case *ssa.Range:
 		f.vals[in] = Sc{e.scalar(f.get(in.X))}
+		if mt, isMap := under(in.X.Type()).(*types.Map); isMap {
+			// a new iteration: nothing delivered yet (ghost visited set of the map, see next)
+			if _, _, _, ks, _, ok := e.mapComps(h, mt); ok && (ks == "Int" || ks == "Str") {
+				g := "seen"
+				if ks == "Str" {
+					g = "seen_s"
+				}
+				e.setGhost(h, g, e.ghost(h, g), e.scalar(f.get(in.X)), fmt.Sprintf("((as const (Array %s Bool)) false)", ks))
+			}
+		}
 		if isStr(in.X.Type()) {
 			e.unsupp["range-string"]++
 		}
@@ -1626,6 +1644,19 @@ func (f *frame) lookup(in *ssa.Lookup, pc string, h *Heap) {
 	}
 }
 
+// loopChangesMap: the loop the Next instruction belongs to inserts into or deletes from some map of type t.
+func (f *frame) loopChangesMap(in *ssa.Next, t types.Type) bool {
+	n := "M." + tname(t)
+	for _, li := range f.loops {
+		if li.blocks[in.Block()] {
+			if li.mods[n+".dom"] || li.all {
+				return true
+			}
+		}
+	}
+	return false
+}
+
 func (f *frame) next(in *ssa.Next, pc string, h *Heap) {
 	e := f.e
 	nm := f.name(in)
@@ -1652,6 +1683,22 @@ func (f *frame) next(in *ssa.Next, pc string, h *Heap) {
 				}
 			}
 			e.assume(fmt.Sprintf("(=> %s (and (not (= %s 0)) (select (select %s %s) %s)))", okb, m, dom, m, k))
+			// visited set: a delivered key was not delivered before; when the iteration ends every key has been delivered
+			// (provided the loop does not insert into or delete from a map of this type, which the frame of the loop shows)
+			if _, _, _, ks, _, ok2 := e.mapComps(h, t); ok2 && (ks == "Int" || ks == "Str") && !f.loopChangesMap(in, t) {
+				g := "seen"
+				if ks == "Str" {
+					g = "seen_s"
+				}
+				arr := e.ghost(h, g)
+				cur := fmt.Sprintf("(select %s %s)", arr, m)
+				e.assume(fmt.Sprintf("(=> %s (not (select %s %s)))", okb, cur, k))
+				e.useQuant = true
+				e.n++
+				bv := q(fmt.Sprintf("k?%d", e.n))
+				e.assume(fmt.Sprintf("(=> (not %s) (forall ((%s %s)) (! (=> (and (not (= %s 0)) (select (select %s %s) %s)) (select %s %s)) :pattern ((select (select %s %s) %s)))))", okb, bv, ks, m, dom, m, bv, cur, bv, dom, m, bv))
+				e.setGhost(h, g, arr, m, fmt.Sprintf("(ite %s (store %s %s true) %s)", okb, cur, k, cur))
+			}
 			if _, isSc := tv[2].(Sc); isSc && sortOf(mt.Elem()) != "" {
 				e.assume(fmt.Sprintf("(=> %s (= %s (select (select %s %s) %s)))", okb, e.scalar(tv[2]), val, m, k))
 			} else if pv, isP := tv[2].(PtrV); isP {
